@@ -751,6 +751,27 @@ def e2i(fb, rep):
                 region = b.reachable(t, avoid_blocks=[c.bb for c in ao])
                 if any(f in region for f in forced) and all(b.dominates(bb, c.bb) for c in ao):
                     ok = True
+    # (after finding 43) what is compared with the limit is what is accounted: alloc_ignore_limit_ adds AllocPtr::size() = header + value
+    # to allocated_memory, so the quantity alloc_owned compares with memory_limit includes GcHeader::value_offset() as well
+    aob = next((x for i, x in fb.bodies.items() if i.startswith("gluon_vm::gc::Gc::alloc_owned") and x.kind == "fn" and "{closure" not in i), None)
+    if aob is None:
+        rep.anchor_lost(R, "Gc::alloc_owned")
+    else:
+        hdr = False
+        seen_cmp = False
+        for bb, opn, lop, rop, true_t, false_t in flow.comparison_switches(aob):
+            srcs = flow.sources(aob, lop, depth=12) | flow.sources(aob, rop, depth=12)
+            if ("field", GC, "memory_limit") in srcs and ("field", GC, "allocated_memory") in srcs:
+                seen_cmp = True
+                if flow.has_call(srcs, lambda x: x.endswith("GcHeader::value_offset") or x.endswith("AllocPtr::size")):
+                    hdr = True
+        if not seen_cmp:
+            rep.anchor_lost(R, "the comparison with memory_limit in Gc::alloc_owned")
+        elif hdr:
+            rep.ok(R, "alloc_owned compares allocated_memory + header + size with memory_limit (the quantity alloc_ignore_limit_ accounts)")
+        else:
+            rep.violation(R, "limit-check-ignores-header", "Gc::alloc_owned compares allocated_memory + def.size() with memory_limit but the allocation is accounted with its header "
+                          "(AllocPtr::size): allocated_memory can end above the limit", aob.where())
     if ok:
         rep.ok(R, "alloc_and_collect: when allocated_memory + size reaches memory_limit a collection is forced before alloc_owned decides")
     else:
